@@ -190,14 +190,16 @@ fn run_program(program: &Program, env: &WorkerEnv, flag: Arc<AtomicBool>) -> Res
             let text = c03::render(&c.lines);
             let lines: Vec<&str> = text.lines().collect();
             let (i, j) = (*i, 2 * *i + 2);
-            if j > lines.len() {
+            // (file names reach the event log through error reports: only inside the chroot jail are they the same on
+            // every worker; elsewhere, and under the scheduler of mode B, the program runs as one text)
+            if j > lines.len() || !env.chrooted {
                 let (r, _) = c03::run_real(&c, env, "run", Some(flag));
                 return end_of(r);
             }
             let mut main: Vec<String> = lines[..i].iter().map(|l| l.to_string()).collect();
             main.push("!include_files part.ds".to_string());
             main.extend(lines[j..].iter().map(|l| l.to_string()));
-            let dir = env.jail_root.join(format!("run13-{}", env.worker_id));
+            let dir = env.jail_root.join("run13");
             let _ = std::fs::create_dir_all(&dir);
             let _ = std::fs::write(dir.join("part.ds"), format!("{}\n", lines[i..j].join("\n")));
             let path = dir.join("main.ds");
